@@ -16,7 +16,11 @@
 From Coq Require Import QArith.Qabs.
 From CNV Require Import Base.Prelude Base.Str Model.Segfilters Spec.Segfilters.
 From CNV Require Import Proofs.SegfiltersRuns Proofs.SegfiltersKeys Proofs.SegfiltersConserve
-  Proofs.SegfiltersOrder.
+  Proofs.SegfiltersOrder Proofs.SegfiltersLib Proofs.SegfiltersFields Proofs.SegfiltersSorted
+  Proofs.SegfiltersCall Proofs.SegfiltersTop Proofs.FnSegfilters.
+From CNV Require Import Gen.FnSegfilters.
+From CNV Require Gen.SegfilterDefaults.
+From CNV Require Base.QNum Spec.Stats Model.Descriptives Model.Chromsort Model.Call Model.Threshold Model.Baf.
 
 (* For every table whose chromosomes are contiguous and every filter, the rows
    produced by the grouping step are the maximal runs of consecutive alike rows,
@@ -107,6 +111,191 @@ Theorem C14_allele_split_refuted :
     length (filter run_is_ampdel (plain_runs Fampdel t)) = 1%nat.
 Proof. exact allele_split_witness. Qed.
 
+(* ---------------------------------------------------------------- merged fields *)
+
+(* Every field of the row that replaces a non-empty run, whatever filter merged
+   it: span, summed probes and weight, log2 / depth / baf weight-averaged (plain
+   average without weight; a missing depth/baf cell as coded), the distinct gene
+   names in order joined by commas, cn and cn1 inside the range of the run's
+   values (hence the common value when constant), np.median without weight, a
+   weighted median up to the code's rounding allowance with non-negative weights,
+   cn2 = cn - cn1, the largest p_bintest, and no ci_lo / ci_hi / sem. *)
+Theorem C14_merged_row : forall r : list seg, r <> [] -> merged_row r (squash_region r).
+Proof. exact squash_region_merged. Qed.
+
+(* ... for every filter and every table with contiguous chromosomes: output row
+   by output row (ampdel keeps a sub-list of these rows) *)
+Theorem C14_merged_fields : forall (f : filt) (t : list seg),
+  Contig (map chrom t) ->
+  Forall2 merged_row (level_runs f t) (squashed f t) /\
+  (forall o, In o (apply_filter f t) -> exists r, In r (level_runs f t) /\ merged_row r o).
+Proof. exact filter_merged_fields. Qed.
+
+(* the cn of a merged run IS C19's weighted_median of the run's (cn, weight)
+   pairs (non-negative weights, positive total), so C19_wmedian_* apply to it *)
+Theorem C14_cn_is_c19_wmedian : forall r : list seg,
+  r <> [] -> weighted r = true -> nonneg_run r ->
+  Descriptives.weighted_median (map cn r) (map weight r) = Some (cn (squash_region r)).
+Proof. exact cn_is_c19_wmedian. Qed.
+
+(* sanity of two specification functions used above *)
+Theorem C14_run_max_is_max : forall (l : list (option Q)) (m : Q), run_max l = Some m ->
+  In m (present l) /\ (forall x, In x (present l) -> (x <= m)%Q).
+Proof. exact run_max_is_max. Qed.
+
+Theorem C14_first_occurrences : forall l : list string,
+  NoDup (first_occurrences l) /\ (forall x, In x (first_occurrences l) <-> In x l) /\
+  Subseq (first_occurrences l) l.
+Proof. exact first_occurrences_spec. Qed.
+
+(* ------------------------------------------------- where contiguity comes from *)
+
+(* A table sorted as GenomicArray.sort sorts (chromosome sort key, start, end),
+   whose chromosome names have distinct sort keys, has contiguous chromosomes;
+   what GenomicArray.sort returns is such a table. *)
+Theorem C14_sorted_contig : forall t : list seg,
+  genome_sorted t -> names_separable t -> Contig (map chrom t).
+Proof. exact sorted_contig. Qed.
+
+Theorem C14_sort_contig : forall t : list seg,
+  names_separable t -> Contig (map chrom (Chromsort.sort_regions seg_region t)).
+Proof. exact sort_gives_contig. Qed.
+
+(* C14_runs / C14_merged_fields / conservation with the precondition discharged *)
+Theorem C14_runs_sorted : forall (f : filt) (t : list seg),
+  genome_sorted t -> names_separable t ->
+  squashed f t = map squash_region (level_runs f t) /\
+  (f <> Fampdel -> apply_filter f t = map squash_region (level_runs f t)) /\
+  is_max_runs (same_full f) t (level_runs f t) /\
+  Forall2 merged_row (level_runs f t) (squashed f t) /\
+  total_probes (squashed f t) = total_probes t /\
+  (total_weight (squashed f t) == total_weight t)%Q.
+Proof. exact filter_runs_sorted. Qed.
+
+(* the filters keep chromosomes contiguous, so the theorems chain *)
+Theorem C14_keeps_contig : forall (f : filt) (t : list seg),
+  Contig (map chrom t) -> Contig (map chrom (apply_filter f t)).
+Proof. exact filter_keeps_contig. Qed.
+
+(* Without contiguity the statement fails: on chr1, chr2, chr1 the group key
+   (level changes + chromosome ordinal) collides and rows of two chromosomes
+   with different copy number are squashed into one row. *)
+Theorem C14_interleaved_refuted :
+  exists t a b o,
+    ~ Contig (map chrom t) /\ In a t /\ In b t /\ chrom a <> chrom b /\ ~ (cn a == cn b)%Q /\
+    In o (apply_filter Fcn t) /\
+    chrom o = chrom a /\ lo o = lo a /\ hi o = hi b /\ probes o = probes a + probes b.
+Proof. exact interleaved_merges. Qed.
+
+(* ------------------------------------------------------- idempotence, monotonicity *)
+
+(* never more rows, for every table (contiguous or not) and every filter *)
+Theorem C14_rows_monotone : forall (f : filt) (t : list seg),
+  (length (apply_filter f t) <= length t)%nat.
+Proof. exact filter_rows_le. Qed.
+
+(* every filter drops ci_lo / ci_hi / sem: ci and sem consume the columns each
+   other needs, and neither can act a second time *)
+Theorem C14_consumes : forall (f : filt) (t : list seg) (s : seg),
+  In s (apply_filter f t) -> ci_lo s = None /\ ci_hi s = None /\ sem s = None.
+Proof. exact filter_consumes. Qed.
+
+(* cn twice = cn once (field-wise ==), when cn2 = cn - cn1 as do_call writes them *)
+Theorem C14_idempotent_cn : forall t : list seg,
+  Contig (map chrom t) -> alleles_consistent t ->
+  table_eqv (apply_filter Fcn (apply_filter Fcn t)) (apply_filter Fcn t).
+Proof. exact cn_idempotent. Qed.
+
+(* ... and not otherwise: the first pass rewrites cn2, the second merges *)
+Theorem C14_idempotent_cn_inconsistent_refuted :
+  exists t, Contig (map chrom t) /\ ~ alleles_consistent t /\
+    length (apply_filter Fcn t) = 2%nat /\ length (apply_filter Fcn (apply_filter Fcn t)) = 1%nat.
+Proof. exact cn_idempotent_inconsistent_refuted. Qed.
+
+(* ampdel twice <> ampdel once: amplified, neutral, amplified *)
+Theorem C14_idempotent_ampdel_refuted :
+  exists t, Contig (map chrom t) /\ alleles_consistent t /\
+    length (apply_filter Fampdel t) = 2%nat /\
+    length (apply_filter Fampdel (apply_filter Fampdel t)) = 1%nat.
+Proof. exact ampdel_idempotent_refuted. Qed.
+
+(* ---------------------------------------------------------- do_call as a whole *)
+
+(* C14_order with the real calling step: for every exp2 / log2 oracle, every
+   configuration (method threshold / clonal / none, ploidy, purity, sexes, PAR
+   build, thresholds) and every admissible filter list, do_call = (ci | sem), the
+   calling step of the C01 / C02 models, the remaining filters in order. *)
+Theorem C14_do_call : forall (exp2 lg2 : Q -> Q) (cfg : callcfg) (fs : list filt) (t : list seg),
+  NoDup fs -> ~ (In Fci fs /\ In Fsem fs) ->
+  do_call_model exp2 lg2 cfg fs t =
+    match call_step exp2 lg2 cfg (match find is_pre fs with Some p => apply_filter p t | None => t end) with
+    | Some called => Some (fold_left (fun acc f => apply_filter f acc) (filter (fun f => negb (is_pre f)) fs) called)
+    | None => None
+    end.
+Proof. exact do_call_order. Qed.
+
+(* the calling step's cn column is C01's call_clonal / C02's call_threshold *)
+Theorem C14_do_call_clonal : forall (exp2 lg2 : Q -> Q) (cfg : callcfg) (t called : list seg),
+  c_method cfg = Mclonal -> call_step exp2 lg2 cfg t = Some called ->
+  exists rows,
+    Call.call_clonal (c_ploidy cfg) (c_purity cfg) (c_hapx cfg) (c_female cfg) (c_build cfg)
+                     (map (in_row_of exp2) t) = Some rows /\
+    map cn called = map (fun r : Call.out_row => inject_Z (fst (fst r))) rows.
+Proof. exact call_step_clonal. Qed.
+
+Theorem C14_do_call_threshold : forall (exp2 lg2 : Q -> Q) (cfg : callcfg) (t called : list seg),
+  c_method cfg = Mthreshold -> call_step exp2 lg2 cfg t = Some called ->
+  map cn called =
+    map inject_Z (Threshold.call_threshold (c_ploidy cfg) (c_hapx cfg) (c_thresholds cfg)
+                    (map (fun s => thr_row_of exp2 (rescale_row exp2 lg2 cfg (first_of t) s)) t)).
+Proof. exact call_step_threshold. Qed.
+
+Theorem C14_do_call_none : forall (exp2 lg2 : Q -> Q) (cfg : callcfg) (t called : list seg),
+  c_method cfg = Mnone -> call_step exp2 lg2 cfg t = Some called ->
+  map cn called = map cn t /\ map cn1 called = map cn1 t /\ map cn2 called = map cn2 t.
+Proof. exact call_step_none. Qed.
+
+(* with a baf column the step writes cn2 = cn - cn1 (or both missing): the
+   hypothesis of C14_idempotent_cn holds for what do_call hands to the filters *)
+Theorem C14_do_call_alleles : forall (exp2 lg2 : Q -> Q) (cfg : callcfg) (t called : list seg),
+  c_method cfg <> Mnone -> c_has_baf cfg = true -> call_step exp2 lg2 cfg t = Some called ->
+  alleles_consistent called.
+Proof. exact call_step_alleles. Qed.
+
+(* the step touches only log2 / cn / cn1 / cn2 *)
+Theorem C14_do_call_frame : forall (exp2 lg2 : Q -> Q) (cfg : callcfg) (t called : list seg),
+  call_step exp2 lg2 cfg t = Some called -> Forall2 same_frame t called.
+Proof. exact call_step_frame. Qed.
+
+(* the whole of do_call never adds rows, keeps chromosomes contiguous, and
+   without ampdel conserves total probes and total weight *)
+Theorem C14_do_call_conserve : forall (exp2 lg2 : Q -> Q) (cfg : callcfg) (fs : list filt) (t out : list seg),
+  Contig (map chrom t) -> do_call_model exp2 lg2 cfg fs t = Some out ->
+  (length out <= length t)%nat /\
+  Contig (map chrom out) /\
+  (~ In Fampdel fs -> total_probes out = total_probes t /\ (total_weight out == total_weight t)%Q).
+Proof. exact do_call_conserve. Qed.
+
+(* ------------------------------------------------------------------ source ties *)
+
+(* The level assignments of ampdel / ci / sem, translated from the function
+   bodies on every run (Gen/FnSegfilters.v: `levels[mask] = v` read per row,
+   levels starting at the 0 of np.zeros), are the levels of the specification.
+   A missing ci bound makes its comparison False, as the bound 0 does. *)
+Theorem C14_source_ampdel_level : forall s : seg,
+  fn_ampdel_level 0 (cn s) = spec_level Fampdel s.
+Proof. exact fn_ampdel_level_eq. Qed.
+
+Theorem C14_source_ci_level : forall s : seg,
+  fn_ci_level 0 (match ci_lo s with Some l => l | None => 0 end)
+                (match ci_hi s with Some h => h | None => 0 end) = spec_level Fci s.
+Proof. exact fn_ci_level_eq. Qed.
+
+Theorem C14_source_sem_level : forall (s : seg) (e : Q),
+  sem s = Some e ->
+  fn_sem_level 0 (log2 s) (fn_sem_margin e SegfilterDefaults.sem_zscore) = spec_level Fsem s.
+Proof. exact fn_sem_level_eq. Qed.
+
 (* ---- the hypotheses are satisfiable and the statements are not vacuous ---- *)
 
 Definition ex_row (c : string) (a b : Z) (l2 w : Q) (n : Q) : seg :=
@@ -144,6 +333,34 @@ Example ex_ci_sem :
   = [("chr1"%string, 0, 300); ("chr1"%string, 300, 400); ("chr2"%string, 10, 50); ("chr2"%string, 60, 70)]
   /\ apply_filter Fsem ex_table = apply_filter Fci ex_table.
 Proof. vm_compute. split; reflexivity. Qed.
+
+Example ex_sorted_genome : genome_sorted ex_table.
+Proof. unfold genome_sorted, ex_table. repeat (constructor; [|repeat constructor]). constructor. Qed.
+
+Example ex_separable : names_separable ex_table.
+Proof.
+  assert (K : forall a, In a ex_table -> chrom a = "chr1"%string \/ chrom a = "chr2"%string).
+  { intros a Ha. cbn in Ha. repeat (destruct Ha as [<-|Ha]; [cbn; tauto|]). contradiction. }
+  intros a b Ha Hb. destruct (K a Ha) as [-> | ->], (K b Hb) as [-> | ->];
+    vm_compute; intros E; first [reflexivity|discriminate E].
+Qed.
+
+Definition ex_cfg : callcfg := mkCfg Mthreshold 2 None false false None Threshold.default_thresholds false.
+
+(* a run of do_call with trivial oracles (exp2 is consulted only above the last threshold) *)
+Example ex_do_call :
+  option_map (map (fun s => (chrom s, lo s, hi s, Qred (cn s))))
+    (do_call_model (fun _ => 2%Q) (fun _ => 0%Q) ex_cfg [Fcn; Fsem] ex_table)
+  = Some [("chr1"%string, 0, 300, 4%Q); ("chr1"%string, 300, 400, 2%Q); ("chr2"%string, 10, 50, 2%Q);
+          ("chr2"%string, 60, 70, 0%Q)].
+Proof. vm_compute. reflexivity. Qed.
+
+Example ex_merged_cn_range :
+  forall o, In o (apply_filter Fci ex_table) -> (2 <= cn o <= 5)%Q \/ (cn o == 0)%Q.
+Proof.
+  vm_compute. intros o H.
+  repeat (destruct H as [<-|H]; [first [left; split; discriminate|right; reflexivity]|]). contradiction.
+Qed.
 
 Example ex_order :
   forall call, call_with_filters call [Fampdel; Fsem; Fcn] ex_table
